@@ -75,8 +75,9 @@ LEVEL_TEXT = (
 LEVEL_NOTE = (
     "Trusted: symbolic stages (their semantics comes from the library objects at run time), Kaldi/soundfile/numpy/"
     "torch codecs, argparse and JSON/YAML parsers, DataLoader order with num_workers=0. Config-syntax independence "
-    "and same-seed determinism are run-checked only. Torch tool modelled with the repair of branch "
-    "fix/C09-torch-empty-post (zero-frame utterance + Standardize no longer kills the run)."
+    "and same-seed determinism are run-checked only. Torch tool modelled with the repairs of branch "
+    "fix/C09-torch-short-utts (a zero-frame utterance is stored untouched instead of dying in a post-processor that "
+    "rejects empty input; the PyTorch STFT pads a signal shorter than a frame like numpy.pad)."
 )
 TECHNIQUE = "Lean 4 proof: loop model = declarative filterMap spec over symbolic pipeline terms; in-process entry-point correspondence with tracer stages"
 
@@ -1099,6 +1100,14 @@ def corpus():
         # torch: zero-frame utterance followed by others, with a post-processor that rejects empty input
         dict(base_t, family="library", computer=fb, posts=[63],
              lines=[["u", 1, 1, 1, 400, True, "npy"], ["u", 2, 1, 1, 60, True, "pt"], ["u", 3, 1, 1, 500, True, "wav"]]),
+        # torch: a causal STFT and a signal of at least L//2+1 but fewer than L samples (the PyTorch port used to
+        # build its symmetric padding from slices no longer than the signal); later utterances must still appear
+        dict(base_t, family="library", seed=1,
+             computer={"name": "stft", "bank": {"name": "fbank", "num_filts": 4, "sampling_rate": 16000},
+                       "frame_length_ms": 25, "frame_shift_ms": 10, "frame_style": "causal"},
+             lines=[["u", 1, 1, 1, 900, True, "npy"], ["u", 2, 1, 1, 250, True, "npy"], ["u", 3, 1, 1, 700, True, "pt"]]),
+        dict(base_t, computer=tracer_computer_cfg(8, 2, False, False, 1000, 2, "ramp"), posts=[51],
+             lines=[["u", 1, 1, 1, 5, True, "npy"], ["u", 2, 1, 1, 6, True, "wav"], ["u", 3, 1, 1, 20, True, "pt"]]),
         # torch: seed = position in the map, also after a resume (manifest lists the first utterance)
         dict(base_t, pres=[14, 11], posts=[59, 51], seed=40, manifest=[1],
              lines=[["u", 1, 1, 1, 9, True, "npy"], ["b"], ["u", 2, 1, 1, 12, True, "npy"], ["u", 3, 1, 1, 7, True, "wav"]]),
